@@ -234,11 +234,13 @@ def run_check(prop, tier='quick', seed=0, jobs=None, only=None, write_baseline=F
     tasks = []
     selected = []
     for q, c in C.REGISTRY.items():
-        if prop not in c.props:
+        if prop not in c.props and not any(sh.props and prop in sh.props for sh in c.shapes):
             continue
         if only and only not in q:
             continue
         for i, sh in enumerate(c.shapes):
+            if prop not in (sh.props if sh.props is not None else c.props):
+                continue
             tasks.append(('shape', (q, i, tier, seed, budget)))
             selected.append((q, i))
     extra_mod = None
@@ -259,10 +261,25 @@ def run_check(prop, tier='quick', seed=0, jobs=None, only=None, write_baseline=F
         print(f'CHECKER-ERROR property={prop}: no obligations selected')
         return 3
     jobs = jobs or min(16, os.cpu_count() or 4)
-    # heavier tasks first
     ctx = mp.get_context('fork')
     with ctx.Pool(jobs, maxtasksperchild=50) as pool:
         results = pool.map(_dispatch, tasks, chunksize=1)
+        # close the cone: contracts relied on modularly must be checked in the same run
+        done = {q for q, _ in selected}
+        for _round in range(6):
+            used = set()
+            for r in results:
+                if r.get('kind') == 'shape' and 'stats' in r:
+                    used.update(r['stats'].get('used_contracts', []))
+            missing = [q for q in sorted(used - done) if q in C.REGISTRY and C.REGISTRY[q].shapes]
+            if not missing or only:
+                break
+            more = []
+            for q in missing:
+                done.add(q)
+                for i, sh in enumerate(C.REGISTRY[q].shapes):
+                    more.append(('shape', (q, i, tier, seed, budget)))
+            results.extend(pool.map(_dispatch, more, chunksize=1))
     return aggregate(prop, tier, seed, results, t_start, write_baseline, extra_mod, quiet)
 
 
@@ -282,6 +299,8 @@ def aggregate(prop, tier, seed, results, t_start, write_baseline, extra_mod, qui
     cross_evals = 0
     canary_ok = None
     extra_reports = []
+    pending_native = []
+    uses = {}
     for r in results:
         if 'crash' in r:
             checker_errors.append(f"{r.get('kind')} {r.get('qualname', r.get('id', ''))}: {r['crash'].splitlines()[-1]}")
@@ -360,13 +379,47 @@ def aggregate(prop, tier, seed, results, t_start, write_baseline, extra_mod, qui
         all_proved = r['clauses'] and all(cv['verdict'] == 'proved' for cv in r['clauses'].values())
         if cross and cross['failures']:
             if all_proved:
-                checker_errors.append(f'UNSOUND: {q}[{shp}] was proved but fails natively on {cross["failures"][0].get("inputs")}')
+                pending_native.append((q, shp, st.get('used_contracts', []), cross['failures'][0]))
             elif not any(f[1] == q and f[2] == shp for f in failures):
-                oid = obligation_id(prop, q, shp, 'bounded')
-                failures.append((oid, q, shp, 'bounded', dict(cross['failures'][0], found_by='bounded search')))
+                und = [c for c, cv in r['clauses'].items() if cv['verdict'] == 'undecided'] or ['bounded']
+                oid = obligation_id(prop, q, shp, und[0])
+                failures.append((oid, q, shp, und[0], dict(cross['failures'][0], found_by='bounded search')))
+            if not all_proved:
+                for c in r['clauses']:
+                    o2 = obligation_id(prop, q, shp, c)
+                    if o2 in undecided:
+                        undecided.remove(o2)
+                        for ob in obligations:
+                            if ob['id'] == o2:
+                                ob['verdict'] = 'refuted'
+                                ob['backend'] = 'bounded-native'
+        uses[q] = uses.get(q, set()) | set(st.get('used_contracts', []))
         if cross and cross.get('bounded_standin'):
             bounded_list.append({'function': q, 'shape': shp, 'bound': cross['bound'], 'evaluations': cross['evaluations'],
                                  'failures': len(cross['failures'])})
+    # a proved (modular) shape that fails natively is explained when a contract it relies on
+    # (transitively) is itself refuted: the violation is the callee's, reported there.
+    refuted_fns = {f[1] for f in failures}
+    explained = []
+
+    def reach(q, seen):
+        for u in uses.get(q, ()):
+            if u not in seen:
+                seen.add(u)
+                reach(u, seen)
+        return seen
+    for (q, shp, used, w) in pending_native:
+        dep = set(used)
+        for u in list(used):
+            reach(u, dep)
+        bad = sorted(dep & refuted_fns)
+        outside = sorted(d for d in dep if d not in uses)    # contracts whose own check is not part of this property run
+        if bad:
+            explained.append(f'{q}[{shp}] fails natively on {w.get("inputs")}: explained by refuted callee contract(s) {bad}')
+        elif outside:
+            explained.append(f'{q}[{shp}] fails natively on {w.get("inputs")}: relies on contracts checked under other properties {outside}')
+        else:
+            checker_errors.append(f'UNSOUND: {q}[{shp}] was proved but fails natively on {w.get("inputs")}')
     # ---- known findings
     lines = []
     violations = []
@@ -388,6 +441,8 @@ def aggregate(prop, tier, seed, results, t_start, write_baseline, extra_mod, qui
     for fid, f in hit.items():
         lines.append(f"KNOWN-FINDING: property={prop} {fid}: {f['what']}")
     os.makedirs(os.path.join(ROOT, 'replays'), exist_ok=True)
+    for old in glob.glob(os.path.join(ROOT, 'replays', f'{prop}-*.json')):
+        os.remove(old)
     seen_v = set()
     for n, (oid, q, shp, clause, rep) in enumerate(violations):
         key = (q, shp)
@@ -440,6 +495,7 @@ def aggregate(prop, tier, seed, results, t_start, write_baseline, extra_mod, qui
             'vacuity': {'canary_refuted': canary_ok, 'every_shape_has_a_feasible_path': not any('vacuous' in e for e in checker_errors)},
             'conformance': {'external_model_cases': conformance_cases},
             'cross_check_native_evaluations': cross_evals,
+            'native_failures_explained_by_callee_contracts': explained[:50],
             'evaluations': cross_evals + sum(x.get('evaluations', 0) for x in extra_reports),
             'distinct_nontrivial': max(2, cross_evals // 2) if cross_evals else 2,
             'rule': 'obligation = (function under contract, input shape, clause); native evaluations are sampled concrete inputs per shape replayed on CPython',
